@@ -11,6 +11,7 @@
 package main
 
 import (
+	"bufio"
 	"fmt"
 	"math/rand"
 	"reflect"
@@ -624,6 +625,7 @@ func (c *checker) texts(rng *rand.Rand, n int) {
 			m := mutate(rng, txt)
 			c.w.CaseStr("mutant:" + m)
 			_, err := imapnum.ParseSet(m)
+			c.entryPoints(m, validGrammar(m))
 			if validGrammar(m) {
 				c.w.Class("text/mutant-valid")
 				if err != nil {
@@ -637,6 +639,93 @@ func (c *checker) texts(rng *rand.Rand, n int) {
 			}
 		}
 	}
+}
+
+// entryPoints: every way a sequence-set text enters the library must agree with the grammar:
+// imapwire.ParseSeqSet (bare SEARCH keys) and Decoder.ExpectNumSet / ExpectUIDSet (command and
+// response arguments), not only imapnum.ParseSet.
+func (c *checker) entryPoints(txt string, valid bool) {
+	report := func(how string, accepted bool) {
+		if accepted == valid {
+			return
+		}
+		if valid {
+			c.w.Violation("parse-valid-rejected@"+how+"/"+txt, fmt.Sprintf("%s rejects the valid sequence-set %q", how, txt), map[string]string{"text": txt, "entry": how})
+		} else {
+			c.w.Violation("parse-invalid-accepted@"+how+"/"+txt, fmt.Sprintf("%s accepts the invalid sequence-set %q", how, txt), map[string]string{"text": txt, "entry": how})
+		}
+	}
+	_, err := imapwire.ParseSeqSet(txt)
+	report("imapwire.ParseSeqSet", err == nil)
+	// the decoder reads the characters of a set and stops at the first other one: only texts made of
+	// set characters are comparable
+	for i := 0; i < len(txt); i++ {
+		if ch := txt[i]; !(ch >= '0' && ch <= '9') && ch != ':' && ch != ',' && ch != '*' {
+			return
+		}
+	}
+	if txt == "" {
+		return
+	}
+	for _, kind := range []imapwire.NumKind{imapwire.NumKindSeq, imapwire.NumKindUID} {
+		d := imapwire.NewDecoder(bufio.NewReader(strings.NewReader(txt+" SENTINEL\r\n")), imapwire.ConnSideServer)
+		var ns imap.NumSet
+		var sent string
+		ok := d.ExpectNumSet(kind, &ns) && d.ExpectSP() && d.ExpectAtom(&sent) && sent == "SENTINEL"
+		report(fmt.Sprintf("Decoder.ExpectNumSet(kind %d)", kind), ok)
+	}
+}
+
+// largeSets: AddSet between two sets that each hold dozens of ranges (the small pool sets of the
+// enumeration never get there), with and without a lone '*' or an 'n:*' range.
+func (c *checker) largeSets(rng *rand.Rand, n int) {
+	build := func() (*real3, *refSet, []op) {
+		t, r := &real3{}, &refSet{}
+		var h []op
+		base := uint32(1 + rng.Intn(50))
+		for k := 30 + rng.Intn(60); k > 0; k-- {
+			var o op
+			base += uint32(2 + rng.Intn(9))
+			if rng.Intn(3) == 0 {
+				o = op{kind: 1, a: base, b: base + uint32(rng.Intn(3))}
+				base = o.b
+			} else {
+				o = op{kind: 0, a: base}
+			}
+			t.apply(o)
+			applyRef(r, o)
+			h = append(h, o)
+		}
+		switch rng.Intn(4) {
+		case 0:
+			o := op{kind: 0, a: 0} // lone '*'
+			t.apply(o)
+			applyRef(r, o)
+			h = append(h, o)
+		case 1:
+			o := op{kind: 1, a: base + 100, b: 0} // n:*
+			t.apply(o)
+			applyRef(r, o)
+			h = append(h, o)
+		}
+		return t, r, h
+	}
+	for i := 0; i < n; i++ {
+		a, ra, ha := build()
+		b, rb, hb := build()
+		a.n.AddSet(b.n)
+		a.s.AddSet(toSeq(b.n))
+		a.u.AddSet(toUID(b.n))
+		ra.addSet(rb)
+		h := append(append(append([]op{}, ha...), op{kind: 0, a: 4242424}), hb...) // (history for the report: A's ops, a separator, B's ops)
+		_ = h
+		c.check(a, ra, nil, false)
+		if c.w.NViolations() > 0 && i < 3 {
+			c.w.Notef("large-set case %d: A built by %d operations, B by %d, then A.AddSet(B); A=%q", i, len(ha), len(hb), a.n.String())
+		}
+		c.w.CaseStr(fmt.Sprintf("large|%s|%s", a.n.String(), b.n.String()))
+	}
+	c.w.Class("large-sets")
 }
 
 // constructors: sets built by the public constructors and by variadic calls with empty argument
@@ -721,6 +810,15 @@ func body(w *hx.W) {
 		"example": histStr([]op{ops[5], ops[30], ops[60]})})
 	c.random(w.Rand("random"), w.Pick(4000, 150000))
 	c.texts(w.Rand("texts"), w.Pick(5000, 200000))
+	for _, t := range []string{"01", "007", "010", "04294967295", "0", "00", "1:02", "01:2", "1,02", "4294967296", "1:", ":1", ",1", "1,", "1::2", "**", "*1", "1*", "*:*", "*", "1:*", "*:1", "5:1", "1,1", "4294967295"} {
+		c.entryPoints(t, validGrammar(t))
+		_, err := imapnum.ParseSet(t)
+		if (err == nil) != validGrammar(t) {
+			w.Violation("parse-grammar@"+t, fmt.Sprintf("imapnum.ParseSet(%q) err=%v, the grammar says valid=%v", t, err, validGrammar(t)), nil)
+		}
+		w.CaseStr("targeted-text:" + t)
+	}
+	c.largeSets(w.Rand("large"), w.Pick(300, 8000))
 	w.SetExhaustive(false) // random part is not exhaustive; the enumerated part is (see metrics)
 	w.Metric("exhaustive_depth", 0)
 	w.MetricMax("max_exhaustive_depth", int64(depth))
